@@ -1,0 +1,70 @@
+// Package verifhook provides schedule points for runtime-verification builds.
+//
+// Without the "verif" build tag Point is an empty function that the compiler
+// removes; with the tag it forwards to a handler installed by a test harness,
+// which may yield, sleep or park the calling goroutine. Hooks never change
+// any library state.
+package verifhook
+
+// Site identifies a schedule point.
+type Site uint8
+
+// Schedule point sites.
+const (
+	// BcastEnter is before a Broadcast critical section takes the mutex.
+	BcastEnter Site = iota
+	// BcastLocked is right after a Broadcast critical section took the mutex.
+	BcastLocked
+	// BcastExit is right after a Broadcast critical section released the mutex.
+	BcastExit
+	// BcastWaitBlock is before Broadcast.Wait blocks on the wait channel.
+	BcastWaitBlock
+	// MutexBlock is before csync.Mutex.Lock blocks in its slow path.
+	MutexBlock
+	// RWMutexBlock is before csync.RWMutex.Lock blocks in its slow path.
+	RWMutexBlock
+	// CContainerBlock is before a CContainer waiter blocks.
+	CContainerBlock
+	// RoutineExecStart is at goroutine start of routine.execute.
+	RoutineExecStart
+	// RoutineExecCall is before routine.execute calls the routine function.
+	RoutineExecCall
+	// RoutineExecDone is after the routine function returned, before bookkeeping.
+	RoutineExecDone
+	// RoutineTimer is at the start of a routine retry timer callback.
+	RoutineTimer
+	// KeyedLock is before the Keyed mutex is taken by an API call.
+	KeyedLock
+	// KeyedExecStart is at goroutine start of keyed execute.
+	KeyedExecStart
+	// KeyedExecCall is before keyed execute calls the routine function.
+	KeyedExecCall
+	// KeyedExecDone is after the keyed routine function returned, before bookkeeping.
+	KeyedExecDone
+	// KeyedTimer is at the start of a keyed retry / removal timer callback.
+	KeyedTimer
+	// RefCountLock is before the RefCount mutex is taken.
+	RefCountLock
+	// RefCountResolveStart is at goroutine start of RefCount.resolve.
+	RefCountResolveStart
+	// RefCountResolveCall is before RefCount.resolve calls the resolver.
+	RefCountResolveCall
+	// RefCountResolveDone is after the resolver returned, before the mutex is taken.
+	RefCountResolveDone
+	// PromiseSetMid is between the done-flag swap and the channel close in Promise.SetResult.
+	PromiseSetMid
+	// OnceLock is before the Once mutex is taken.
+	OnceLock
+	// MemoMid is after MemoizeFunc decided whether this caller runs the function.
+	MemoMid
+	// LifoPushCAS is between the top load and the compare-and-swap in AtomicLIFO.Push.
+	LifoPushCAS
+	// LifoPopCAS is between the top load and the compare-and-swap in AtomicLIFO.Pop.
+	LifoPopCAS
+	// CcallSpawned is after CallConcurrently spawned its functions and released the lock.
+	CcallSpawned
+	// ConcWorkerLock is before a ConcurrentQueue worker takes the lock after a job.
+	ConcWorkerLock
+	// NumSites is the number of sites.
+	NumSites
+)
